@@ -40,6 +40,10 @@ var (
 
 type abortSentinel struct{}
 
+// IsAbort reports whether a recovered panic value is the scheduler's abort sentinel
+// (harness code that recovers panics of the code under test must re-panic it).
+func IsAbort(p interface{}) bool { _, ok := p.(abortSentinel); return ok }
+
 type Task struct {
 	ID        int
 	Name      string
@@ -250,7 +254,7 @@ func Lock(m sync.Locker, label string) {
 	}
 	for {
 		t.blockedOn = nil
-		if h := s.holder(m); h != nil && h != t {
+		if h := s.holder(m); h != nil { // (also h == t: Go mutexes are not reentrant)
 			t.blockedOn = m
 		}
 		t.free = 0
@@ -332,7 +336,7 @@ func (s *Sched) runnable() []*Task {
 			continue
 		}
 		if t.blockedOn != nil {
-			if h := s.holder(t.blockedOn); h != nil && h != t {
+			if h := s.holder(t.blockedOn); h != nil {
 				continue
 			}
 		}
@@ -467,6 +471,25 @@ func (s *Sched) Run() {
 	if s.Deadlock != "" {
 		s.abortAll()
 	}
+}
+
+// ParkedAt reports whether some task is parked at a label with the given substring.
+func (s *Sched) ParkedAt(sub string) bool {
+	for _, t := range s.tasks {
+		if t.parked && t.wake != nil && contains(t.Label, sub) {
+			return true
+		}
+	}
+	return false
+}
+
+func contains(s, sub string) bool {
+	for i := 0; i+len(sub) <= len(s); i++ {
+		if s[i:i+len(sub)] == sub {
+			return true
+		}
+	}
+	return false
 }
 
 // Where lists the tasks and the labels they are parked at.
